@@ -284,7 +284,7 @@ Definition gen_execute_gamma_phase (subs:list (obj -> bool -> M unit)) (axs cls:
 
 (* proof.py:210 *)
 Definition gen_execute_claims_phase (subs:list (obj -> bool -> M unit)) (axs cls:list pat) (prs:list thunk) (v_interpreter:obj) (v_move_into_proof:bool) : M unit :=
-  bind (assert_phase Claim) (fun _ => bind (iterM (fun v_claim => bind (obj_pattern v_interpreter v_claim) (fun a72 => (o_publish_claim (o_ops v_interpreter) a72))) cls) (fun _ => bind (if v_move_into_proof then into_proof_phase else ret tt) (fun _ => ret tt))).
+  bind (assert_phase Claim) (fun _ => bind (iterM (fun v_claim => bind (obj_pattern v_interpreter v_claim) (fun a72 => (o_publish_claim (o_ops v_interpreter) a72))) (rev cls)) (fun _ => bind (if v_move_into_proof then into_proof_phase else ret tt) (fun _ => ret tt))).
 
 (* proof.py:218 *)
 Definition gen_execute_proofs_phase (subs:list (obj -> bool -> M unit)) (axs cls:list pat) (prs:list thunk) (v_interpreter:obj) : M unit :=
